@@ -138,8 +138,6 @@ func runC03(run *common.Run) {
 			}
 			clients[w] = cl
 		}
-		var slot sync.Map
-		_ = slot
 		doCase := func(sub string, idx int, w int, t c03Table, rs model.RowSet, limit int64) {
 			if !run.Want(sub, idx) || run.TooMany() {
 				return
@@ -344,9 +342,9 @@ func c03Streams(run *common.Run, srv *drive.Srv, engine string, ei int) {
 		allKeys[i] = bigKey(i)
 	}
 	type sc struct {
-		desc   string
-		req    *btpb.ReadRowsRequest
-		want   []string
+		desc string
+		req  *btpb.ReadRowsRequest
+		want []string
 	}
 	var cases []sc
 	sel := func(pred func(i int) bool, limit int) []string {
